@@ -561,6 +561,20 @@ Proof. vm_compute. reflexivity. Qed.
 Example skeletonize_restores : restores_outside prog_skeletonize = true.
 Proof. vm_compute. reflexivity. Qed.
 
+(* masked_convolution (4 DAG nodes, 4 as a tree):  MConv kernel (Pw ascontiguousarray [Img]) (MaskE) *)
+Definition prog_masked_convolution : prog :=
+  ([],
+   (MConv 58 (Pw 10 [Img]) MaskE)).
+Example masked_convolution_ok : accepts prog_masked_convolution = true.
+Proof. vm_compute. reflexivity. Qed.
+
+(* branchings (9 DAG nodes, 9 as a tree):  Glob index [Pw astype [Glob convolve [Select (Pw copy [Pw astype [Img]]) (MaskE) (FalseC)]]] *)
+Definition prog_branchings : prog :=
+  ([],
+   (Glob 19 [(Pw 69 [(Glob 56 [(Select (Pw 2 [(Pw 69 [Img])]) MaskE FalseC)])])])).
+Example branchings_ok : accepts prog_branchings = true.
+Proof. vm_compute. reflexivity. Qed.
+
 (* regional_maximum_struct: the program of regional_maximum with a symbolic (abstract) structure s *)
 Definition prog_regional_maximum_struct (s : nat) : prog :=
   ([(Select (Select (Pw 1 [(LocS s 12 Img)]) (ErodeS s MaskE) FalseC) (Select (Const 4) MaskE FalseC) FalseC);
@@ -572,13 +586,15 @@ Definition prog_regional_maximum_struct (s : nat) : prog :=
 Lemma regional_maximum_struct_ok : forall s, accepts (prog_regional_maximum_struct s) = true.
 Proof. intros s. unfold accepts, prog_regional_maximum_struct. cbn. rewrite ?PeanoNat.Nat.eqb_refl. cbn. reflexivity. Qed.
 
+(* NOT CLAIMED  life  (ignores its mask argument altogether): Glob table_lookup [Img] *)
+(* NOT CLAIMED  granulometry_filter  (normalises by image.max() over the whole image, like enhance_dark_holes (excluded by the property text)): Glob loop:selected_granules_image [Img; Pw sub [Glob max [Img]; Img]; MaskE] *)
 Definition listed_progs : list prog :=
-  [prog_median_filter; prog_grey_erosion; prog_grey_dilation; prog_opening; prog_closing; prog_white_tophat; prog_black_tophat; prog_openlines; prog_sobel; prog_hsobel; prog_vsobel; prog_prewitt; prog_hprewitt; prog_vprewitt; prog_roberts; prog_canny; prog_laplacian_of_gaussian; prog_variance_transform; prog_circular_average_filter; prog_smooth_with_function_and_mask; prog_stretch; prog_fit_polynomial; prog_circular_hough; prog_convex_hull_transform; prog_regional_maximum; prog_bridge; prog_clean; prog_diag; prog_endpoints; prog_branchpoints; prog_fill; prog_fill4; prog_hbreak; prog_vbreak; prog_majority; prog_remove; prog_spur; prog_thicken; prog_thin; prog_skeletonize].
+  [prog_median_filter; prog_grey_erosion; prog_grey_dilation; prog_opening; prog_closing; prog_white_tophat; prog_black_tophat; prog_openlines; prog_sobel; prog_hsobel; prog_vsobel; prog_prewitt; prog_hprewitt; prog_vprewitt; prog_roberts; prog_canny; prog_laplacian_of_gaussian; prog_variance_transform; prog_circular_average_filter; prog_smooth_with_function_and_mask; prog_stretch; prog_fit_polynomial; prog_circular_hough; prog_convex_hull_transform; prog_regional_maximum; prog_bridge; prog_clean; prog_diag; prog_endpoints; prog_branchpoints; prog_fill; prog_fill4; prog_hbreak; prog_vbreak; prog_majority; prog_remove; prog_spur; prog_thicken; prog_thin; prog_skeletonize; prog_masked_convolution; prog_branchings].
 Definition binary_progs : list prog :=
   [prog_bridge; prog_clean; prog_diag; prog_endpoints; prog_branchpoints; prog_fill; prog_fill4; prog_hbreak; prog_vbreak; prog_majority; prog_remove; prog_spur; prog_thicken; prog_thin; prog_skeletonize].
 Lemma listed_accepted : forallb accepts listed_progs = true.
 Proof. vm_compute. reflexivity. Qed.
 Lemma binary_restore : forallb restores_outside binary_progs = true.
 Proof. vm_compute. reflexivity. Qed.
-Lemma listed_count : (length listed_progs, length binary_progs) = (40, 15)%nat.
+Lemma listed_count : (length listed_progs, length binary_progs) = (42, 15)%nat.
 Proof. reflexivity. Qed.
